@@ -342,12 +342,12 @@ repairs before they were committed.
   loops turned into `find`/`matches!`, hoisted values, extracted helpers, inverted branches; every public function of the crate
   is touched by at least one), each applied to `/repo` and run against **all 20 quick checks**: **0 false alarms**
   (`harmless/RESULTS.md`). The price of annotating in place shows here: every one of them leaves the Verus units that extract
-  the refactored function *undecided* (exit 2: an invariant names a local that was renamed, or the code an annotation was
-  anchored to was restructured) until the side-car is re-anchored (`vx.py derive` after adjusting the names); the bounded
+  the refactored function *undecided* (exit 2: the code an annotation was anchored to was restructured, a rule no longer matches,
+  or a rename could not be followed because it came with such a restructuring) until the side-car is re-anchored (`vx.py derive` after adjusting the names); the bounded
   contracts of the same property still ran and passed on the refactored code, and every property whose units do not touch the
   refactored function still exits 0. An *undecided* is reported as such — never as a violation, never as a pass.
-* **SMT-seed stability** (`tools/stability.py`): all 21 units verify under Z3 random seeds 1–8 (max rlimit 17 M for U5 and
-  U11). U1 was restructured around an opaque state predicate with step lemmas after it failed under two seeds; a U11
+* **SMT-seed stability** (`tools/stability.py`): all 21 units verify under Z3 random seeds 1–8 (max rlimit 17 M for U5,
+  28 M for U11 with `//@rlimit 20`). U1 was restructured around an opaque state predicate with step lemmas after it failed under two seeds; a U11
   lemma was split in three for the same reason.
 * **Seeded property-breaking changes**: §11.
 * **`vp check`** on a fresh copy: nothing needed attention.
@@ -362,7 +362,10 @@ w("""## 9. Departures from the original plan
 * A10 (char-boundary safety of wrap's slices; `from_utf8(..).unwrap()` in `fill_inplace`) is discharged, not assumed.
 * K4 (Kani on `smawk`) was replaced by a BEC contract on the real crate; K2's bound is smaller than planned
   (quarter-integer widths, ≈ 10 min) and it runs in the thorough tier only.
-* C18 rose from `exploration` to `proof`; C11 from `other` to `proof` (completeness of the Unicode word finder proved); C16 from `exploration` to `other`.
+* C18 rose from `exploration` to `proof`; C11 from `other` to `proof` (completeness of the Unicode word finder proved); C16 from `exploration` to `other`;
+  C08 and C09 from `other` to `proof` (functional postcondition of `wrap`, §2.9).
+* A8 (termination of `display_width`) and A16 (float exactness, by Kani K3) are discharged; two std facts about `str::split` are proved for a scan model instead of assumed.
+* The merge follows consistent renames of bound locals (§2.1); it did not in the plan.
 
 ## 10. Corrections made to the machinery (false alarms on the unchanged tree)
 
@@ -417,7 +420,7 @@ Misses on first contact and what was strengthened (never by weakening a check):
 | 7 | w7_C15_A (`unfill` stops measuring lines once the common indent is empty) | round-trip paragraphs had at most three words in the quick tier, so never four lines | a pass over fixed paragraphs of 6–8 words (widest line first / last / in the middle) |
 
 **Verus on its own** (`tools/seedverus.py`, `seeded/VERUS.json`: each change applied to a scratch copy, only the Verus units run):
-a Verus obligation rejects 66 of the 148 changes; the others end *undecided* in Verus (a new construct without a spec, a
+a Verus obligation rejects 69 of the 162 changes (1 of the 14 disguised as refactors); the others end *undecided* in Verus (a new construct without a spec, a
 loop rewritten so that a rewrite rule no longer applies, a lost anchor) or touch code whose contract does not see them
 (`ch_width`'s table — decided by the exhaustive scalar enumeration and Kani K1). Three things raised that share (from 29 to 42 of the first 77 changes):
 (i) specs for the std functions such edits typically reach for (`str::trim_end` / `trim_start` / `trim`, `char::is_ascii`,
